@@ -110,7 +110,7 @@ def method_slices(rows):
 # ------------------------------------------------------------------------------------------ tokens (GIRMachine)
 _INT = _re.compile(r"^-?\d+$")
 TOK_FIELDS = ("operand", "operand2", "condition", "receiver", "name", "array", "index", "source", "receiver_object",
-              "receiver_record", "key", "value")
+              "receiver_record", "key", "value", "field")
 
 
 def token(text):
